@@ -752,3 +752,26 @@ pub fn run_loop(
     }
     (result, tails)
 }
+
+// ---------------------------------------------------------------------------------
+// One pass of Inner::process_heartbeat_timers over REAL timers after the thread has been
+// away for a while (so that several entries are due at once): was the silence reported in
+// that pass, and what is queued afterwards.
+// ---------------------------------------------------------------------------------
+pub fn heartbeat_pass(interval_ms: u64, queued: usize, away_ms: u64) -> (bool, bool, usize) {
+    let mut inner = Inner::new(HeartbeatTimers::default(), 1);
+    inner.outbuf.clear();
+    inner
+        .heartbeats
+        .start(std::time::Duration::from_millis(interval_ms));
+    if queued > 0 {
+        inner.outbuf.append(raw_buf(vec![0u8; queued]));
+    }
+    std::thread::sleep(std::time::Duration::from_millis(away_ms));
+    let r = inner.process_heartbeat_timers();
+    (
+        matches!(r, Err(Error::MissedServerHeartbeats)),
+        r.is_ok(),
+        inner.outbuf.len(),
+    )
+}
